@@ -139,8 +139,23 @@ def save_replay(pid, subname, case, message, signature, new=True):
 # ----------------------------------------------------------------------------------------------
 # one work unit = one (sub-check, shard) in its own process
 # ----------------------------------------------------------------------------------------------
+def _limit_memory():
+    """Address-space cap per shard (default 12 GiB, TQV_MEM_GB overrides): a code change that makes toqito allocate without
+    bound then fails with MemoryError inside the call (reported like any other exception from toqito) instead of
+    inviting the kernel's out-of-memory killer, which takes unrelated processes with it."""
+    try:
+        import resource
+
+        lim = int(float(os.environ.get("TQV_MEM_GB", "12")) * 2**30)
+        if lim > 0:
+            resource.setrlimit(resource.RLIMIT_AS, (lim, lim))
+    except Exception:  # noqa: BLE001
+        pass
+
+
 def run_unit(pid, subname, tier, seed, shard, nshards, n_cases, enabled_known, out_path):
     t0 = time.time()
+    _limit_memory()
     res = {
         "sub": subname,
         "shard": shard,
@@ -338,6 +353,7 @@ def _trim(case, limit=1500):
 def _replay_tier(pid, out_path):
     """Replay the witnesses of open known findings and every committed replay file; write the outcome as JSON."""
     res = {"violations": [], "harness_errors": [], "enabled_known": {}, "known_lines": [], "replayed": 0}
+    _limit_memory()
     try:
         _mod, subs = load_property(pid)
         witness_files = set()
